@@ -35,6 +35,18 @@ CLAIMS = {
         "Class-level abstraction: conditions on payloads are opaque and fork both ways; the bindable-class domain "
         "excludes internal kinds listed with reasons in sa/rules/common.py.",
     ),
+    "C10": (
+        "Decides: (R10.1) no set/frozenset-typed value (typed from literals, constructors, set algebra, annotations "
+        "of fields/parameters/returns, one inter-procedural step) reaches an order-observable construct (ordered "
+        "iteration with non-commuting effects, list/tuple/dict materialisation, join/format, pop, next(iter), star, "
+        "keyed min/max, sort by id) unless discharged by a recognised order-insensitivity idiom or a recorded "
+        "exception; (R10.2) per-check state pushed on long-lived objects is restored in finally / by a context "
+        "manager on every exit; (R10.3) id()-keyed stores re-verify identity or are paired. Purity of cross-file "
+        "memo caches is not decided.",
+        "set-typing dataflow + sink/idiom classification + pairing rule over the AST",
+        "Set typing is annotation- and constructor-driven (pyanalyze's sources are fully annotated); values that are "
+        "sets only behind an un-annotated external call are not seen. Exceptions are listed with reasons in sa/rules/c10.py.",
+    ),
     "C12": (
         "Decides: (R12.1) no element of the dispatched domain reaches a failing default (assert False/assert_never) "
         "in the classified dispatch chains, and dispatchers do not fall off their end; (R12.2) NodeVisitors whose "
